@@ -75,7 +75,7 @@ def load_baseline():
 
 
 def write_replay(prop, name, payload):
-    d = os.path.join(VERIF, "out", "replay")
+    d = os.path.join(os.environ.get("VERIF_OUT") or os.path.join(VERIF, "out"), "replay")
     os.makedirs(d, exist_ok=True)
     safe = "".join(ch if ch.isalnum() or ch in "-_." else "_" for ch in name)[:120]
     path = os.path.join(d, f"{prop}-{safe}.json")
